@@ -238,9 +238,11 @@ const keyZFix = "zfixkey-local-clock"
 // the repository (commit 0a165e4 "HCLEAR decides on the log timestamp"): its
 // relaxation is switched off, a recurrence is an unknown violation again
 // (mutant m15 re-introduces the defect).
-var clockFindings = []clockFinding{
-	{keyZFix, clZSet, []string{"zfixkey"}, "zexpire", []byte{26, 27, 28}},
-}
+// zfixkey-local-clock likewise (commit 037dca3 "ZFIXKEY reads the members at the
+// log timestamp").
+var clockFindings = []clockFinding{}
+
+var _ = clockFinding{keyZFix, clZSet, []string{"zfixkey"}, "zexpire", []byte{26, 27, 28}}
 
 var _ = clockFinding{keyHClear, clHash, []string{"hclear", "hmclear"}, "hexpire", []byte{22, 23}}
 
